@@ -249,10 +249,17 @@ func (m *Migrator) migrateSwamp(folderPath string) {
 	// Step 0: Load swamp name from meta file
 	swampName, err := m.loadSwampNameFromMeta(folderPath)
 	if err != nil {
+		// A folder without a meta file has no name to carry over. A meta file that
+		// is there but cannot be read or decoded has one: migrating without it would
+		// write a nameless swamp file, report success and (with DeleteOld) delete the
+		// only copy of the name together with the legacy folder.
+		if !errors.Is(err, os.ErrNotExist) {
+			m.recordFailure(folderPath, err.Error(), "load")
+			return
+		}
 		slog.Warn("Could not load swamp name from meta file",
 			"path", folderPath,
 			"error", err)
-		// Continue anyway - swamp name is optional for basic functionality
 	}
 
 	// Step 1: Load V1 data (with deduplication)
